@@ -25,7 +25,7 @@ CHECKS = {
   technique="TLA+ spec (Mrz.tla) model-checked with TLC; mutant table replayed into mrz.MrzDecode / password routes; recorded calls validated against Trace_Mrz"),
  "C02": dict(
   category="model_checking",
-  text="Verdict.tla states the gates of the property as predicates on any verdict function and the as-built mapping of document/session.go; TLC enumerates all 432 outcome vectors (PA absent/error/failed/ok x CardSecurity authenticated x AA/PACE-CAM/CA absent/failed/ok x completeness) and checks the gates; each vector is concretised into real document.Session values in 16 (quick) / 256 (thorough) representations and Summary(), VerifiedChipAuthStatus(), ChipAuthProtocolStatus() are checked against the gates. (The end-to-end half with hostile chips is added by the session checks.)",
+  text="Verdict.tla states the gates of the property as predicates on any verdict function and the as-built mapping of document/session.go; TLC enumerates all 432 outcome vectors (PA absent/error/failed/ok x CardSecurity authenticated x AA/PACE-CAM/CA absent/failed/ok x completeness) and checks the gates; each vector is concretised into real document.Session values in 16 (quick) / 256 (thorough) representations and Summary(), VerifiedChipAuthStatus(), ChipAuthProtocolStatus() are checked against the gates. End-to-end half: Session.tla's C02 clauses are checked by TLC on all chip configurations incl. hostile kinds (clone copying all files without keys, clone with its own DG14/DG15 keys, DG14 / DG15 withheld but listed, CardAccess infos not contained in DG14); the hostile configurations (a twelfth in quick, all in thorough) are personalised and read with the real Reader.ReadDocument, the export is verified with the real Verifier, and the verdicts are checked against the clauses.",
   design_ref="DESIGN.md §6 C02",
   note="The product half is exhaustive over the abstract vectors; representations per vector are sampled in quick.",
   technique="TLA+ spec (Verdict.tla) exhaustively enumerated with TLC; every vector replayed into document.Session/DocumentEx.Summary"),
@@ -84,6 +84,19 @@ CHECKS = {
   design_ref="DESIGN.md §6 C07",
   note="The substance (is this byte string a valid signature) is decided by a second implementation, the TLA+ part organises scenarios and the plumbing rule; value-preserving re-encodings get no verdict.",
   technique="TLA+ spec (ActiveAuth.tla) with TLC; scenarios replayed into the real AA code with an independent signature oracle"),
+
+ "C08": dict(
+  category="model_checking",
+  text="Session.tla composes the 13 pipeline steps of reader.ReadDocument over a chip configuration record (access arrangement bac / pace / pace+bac / cam / cam+bac, data-group subsets, AA none/rsa/ecdsa, CA, issuer trusted, chip kind) and reader options (skip PACE, skip images, MRZ / CAN): TLC checks the C08 clauses (every listed and stored data group obtained, each supported mechanism successful, PA iff issuer trusted) and the C02 end-to-end clauses on all 7808 (configuration, options) pairs and prints the expected outcome of each. Binding: for the genuine configurations (a sixth in quick, all x3 in thorough) a passport is personalised with random concrete variety (PACE / CA curves and suites, AA key types, CSCA/DS signature profiles, DG13 sizes at length boundaries, chip response caps, Le limits, extended length on/off, read sizes 100..65536) and read with the real Reader.ReadDocument against the chip simulator; every file is compared byte for byte with the chip's, every step outcome, verdict and the set of data groups with the model's expectation, and every success with the chip's own completion record.",
+  design_ref="DESIGN.md §6 C08",
+  note="Premise of the success clause stated in the evidence file (read size within what the chip's length format supports, first read returns the complete TLV header).",
+  technique="TLA+ spec (Session.tla) with TLC; expected outcome per configuration replayed into Reader.ReadDocument against an independent chip and issuing PKI"),
+ "C11": dict(
+  category="fault_enumeration",
+  text="Session.tla names, per pipeline step, how a failing exchange may continue (tolerate / record / abort / retry); TLC checks that every active step of every configuration has a defined continuation. Binding (exhaustive fault enumeration): for 2 (quick) / 6 (thorough) chip configurations one fault-free real read fixes the exchange count N; then for EVERY exchange index k < N and EVERY fault kind (empty, one byte, truncated, garbled, oversized, error status, unprotected 9000) one real ReadDocument is run with the fault injected on the link, plus seeded 2-4-fault scripts; each result is judged against the chip's ground truth: no panic, returns within 60 s, every returned file byte-identical to the chip's, no authentication step reported successful that the chip did not complete, DataTrusted only with passing PA and completeness over genuine files.",
+  design_ref="DESIGN.md §6 C11",
+  note="'never loops' is bounded observation (60 s per read); payload changes under an unchanged 9000 on unprotected exchanges are undetectable and not asserted.",
+  technique="TLA+ spec (Session.tla) continuation table + exhaustive single-fault enumeration over every exchange of real reads against an independent chip"),
 }
 PENDING = {}
 
